@@ -3,7 +3,10 @@
 Program space (all six compiler configurations, both tiers):
   layout facts   (every library unit + generated units) x R11, Quantity and QuantityPoint
   result types   decltype of every operator result vs decltype of the raw operator   (ops units x R11)
-  acceptance     every operator use must compile                                     (ops units x R11)
+  acceptance     every operator use must compile, on const operands, and be usable inside a constant
+                 expression with the raw operator's value (ops units x R11; includes every (rep, operator,
+                 scalar type) triple and every round-trip spelling that the value sweeps instantiate)
+  points         ptmaker(x).in(ptmaker) and the same-unit QuantityPoint operators: value only (see assumptions)
 Value space (compiled harness, oracle = the raw built-in operator on R; definedness by 128-bit ints):
   all 65536 operand pairs of int8_t / uint8_t, edge-window pairs for wider reps, structured
   floating pairs (NaN payloads, inf, signed zeros, denormals); unary ops and unit(x).in(unit) on all
@@ -15,7 +18,7 @@ import re
 
 from .. import core, psx
 from .. import c13_lib as L
-from ..c13_units import PREAMBLE, QUICK_OPS, THOROUGH_OPS_LIB, all_units
+from ..c13_units import PREAMBLE, QUICK_OPS, QUICK_PT, THOROUGH_OPS_LIB, all_units
 from ..core import R11
 
 LEVEL = "exploration"
@@ -50,11 +53,15 @@ def judge_layout(o):
 
 
 def judge_type(o, oid):
-    if o[oid + "|ti"] and o[oid + "|rf"]:
-        return None
+    """-> (kind, message) or None; kind: result-type | result-unit"""
     if not o[oid + "|ti"]:
-        return "Au result type is %s, the raw operator yields %s" % (o[oid + "|au"], o[oid + "|raw"])
-    return "value category differs from the raw operator (lvalue-ness)"
+        return "result-type", "Au result type is %s, the raw operator yields %s" % (o[oid + "|au"], o[oid + "|raw"])
+    if not o[oid + "|rf"]:
+        return "result-type", "value category differs from the raw operator (lvalue-ness)"
+    if not o.get(oid + "|un", True):
+        return "result-unit", ("the result is not Quantity<U, %s> of the operands' unit U (compound assignment: not the "
+                               "assigned-to object)" % o[oid + "|raw"])
+    return None
 
 
 def _multi(cfgs, fn, workers=3):
@@ -68,17 +75,18 @@ def _chunk(n):
 
 # ------------------------------------------------------------------------------------------------ sweeps
 def build_sweeps(wd, cfg, flags, units, accepted, nparts):
-    """One TU per unit; returns (stats, viols). accepted: unit name -> [(rep, opname)]."""
+    """One TU per unit; returns (stats, viols, n_instances). accepted: unit name -> [(rep, Op)], all of them probed."""
     os.makedirs(wd, exist_ok=True)
     core.pch_dir(cfg, flags)
+    counts = {}
 
     def build(u):
         stem = os.path.join(wd, "sw_%s_%s" % (cfg.name, re.sub(r"\W", "_", u.name)))
-        L.sweep_tu(stem + ".cc", u, accepted[u.name], R11)
+        counts[u.name] = L.sweep_tu(stem + ".cc", u, accepted[u.name])
         rc, err = core.build_exe(cfg, stem + ".cc", stem, flags)
         if rc != 0:
             _guard(err)
-            raise core.InfraError("C13 sweep TU does not build although every operator in it was accepted "
+            raise core.InfraError("C13 sweep TU does not build although every operator use in it was accepted "
                                   "alone (%s):\n%s" % (stem, err[-2500:]))
         return stem
 
@@ -102,7 +110,7 @@ def build_sweeps(wd, cfg, flags, units, accepted, nparts):
             os.remove(e)
         except OSError:
             pass
-    return stats, viols
+    return stats, viols, sum(counts.values())
 
 
 def check(run):
@@ -110,8 +118,11 @@ def check(run):
     units = all_units()
     by_name = {u.name: u for u in units}
     ops_units = [by_name[n] for n in QUICK_OPS]
-    if tier == "thorough":   # + every generated unit + a spread of further library units
-        ops_units += [u for u in units if (not u.lib or u.name in THOROUGH_OPS_LIB) and u not in ops_units]
+    groups = [list(ops_units)]
+    if tier == "thorough":   # + every generated unit + a spread of further library units, in deadline-guarded groups
+        more = [u for u in units if (not u.lib or u.name in THOROUGH_OPS_LIB) and u not in ops_units]
+        groups += [more[i:i + 9] for i in range(0, len(more), 9)]
+        ops_units = ops_units + more
     cfgs = core.CFG6
     core.warm_pch(cfgs)
     n_eval = 0
@@ -119,7 +130,7 @@ def check(run):
     phase = {}
 
     def mark(name):
-        phase[name] = round(run.elapsed() - sum(phase.values()), 1)
+        phase[name] = round(phase.get(name, 0) + run.elapsed() - sum(phase.values()), 1)
 
     written = [0]
 
@@ -164,139 +175,181 @@ def check(run):
     samples.append({"layout": "sizeof/alignof/traits/default-construction of Quantity and QuantityPoint<%s, %s>"
                     % (units[-1].cpp, "long double")})
 
-    # ---- 2. result types: ops units x R11 x operators x CFG6 (decltype only: independent of acceptance)
-    typ, tmeta = [], {}
-    for u in ops_units:
-        for rep in R11:
-            rid = len(typ)
-            typ.append(L.type_record(rid, u, rep))
-            tmeta[rid] = (u, rep)
-    out = _multi(cfgs, lambda c: psx.run_dump(c, typ, os.path.join(run.wd, "types"), "typ", L.DUMP_PREAMBLE,
-                                              chunk=_chunk(len(typ))))
-    n_types = type_mismatch = 0
-    for cfg in cfgs:
-        res, failed = out[cfg.name]
-        for rid, diag in sorted(failed.items()):
-            _guard(diag)
-            u, rep = tmeta[rid]
-            key = "C13:no-compile:types:rep=%s:unit=%s:cfg=%s" % (rep, u.name, cfg.name)
-            report(key, "%s: naming the operator result types of Quantity<%s, %s> in decltype is rejected: %s"
-                   % (cfg, u.cpp, rep, diag), {"kind": "type", "cfg": [cfg.cxx, cfg.std], "unit": u.name, "rep": rep})
-        for rid, o in sorted(res.items()):
-            u, rep = tmeta[rid]
-            n_types += 1
-            if not o["def_in"]:
-                key = "C13:layout:def_in:rep=%s:unit=%s:cfg=%s" % (rep, u.name, cfg.name)
-                report(key, "%s: default-constructed Quantity/QuantityPoint<%s, %s> does not read back as %s{} through .in(unit)"
-                       % (cfg, u.cpp, rep, rep), {"kind": "type", "cfg": [cfg.cxx, cfg.std], "unit": u.name, "rep": rep, "op": "def_in"})
-            for op in L.ops_for(rep):
-                n_types += 1
-                msg = judge_type(o, op.oid)
-                if msg:
-                    type_mismatch += 1
-                    key = "C13:result-type:op=%s:rep=%s:unit=%s:cfg=%s" % (op.oid, rep, u.name, cfg.name)
-                    report(key, "%s: `%s` on Quantity<%s, %s>: %s" % (cfg, op.au.format(**L._EVAL), u.cpp, rep, msg),
-                           {"kind": "type", "cfg": [cfg.cxx, cfg.std], "unit": u.name, "rep": rep, "op": op.oid})
-    n_eval += n_types
-    mark("types")
-
-    # ---- 3. acceptance: every operator use must compile.  Sub-int reps (where integral promotion makes the raw
-    #         result type differ from R) are batched per operator so that one rejected family cannot push
-    #         unrelated probes into one-by-one recompilation.
+    # ---- 2. acceptance.  One probe per operator use (and per round-trip spelling set): first inside a constant
+    #         expression (constexpr operands are const; the compile-time value is compared with the raw operator's);
+    #         what is rejected there is re-probed at run time on const operands to tell "does not compile" from
+    #         "not a constant expression".  Every (rep, operator, scalar type) triple and every round trip that the
+    #         value sweeps instantiate is probed here, in both tiers; only accepted ones reach the sweep TUs.
+    #         Sub-int reps (where integral promotion makes the raw result type differ from R) are batched per
+    #         operator so that one rejected family cannot push unrelated probes into one-by-one recompilation.
     SUB = ("int8_t", "uint8_t", "int16_t", "uint16_t")
-    plist = []
-    for u in ops_units:
-        for rep in R11:
-            for op in L.ops_for(rep):
-                if tier == "thorough" or op.S == "R":
-                    plist.append((rep not in SUB, op.oid, rep, u.name))
-    plist.sort()
-    pmeta = {}
-    probes = []
-    for i, (_, oid, rep, un) in enumerate(plist):
-        op = [o for o in L.ops_for(rep) if o.oid == oid][0]
-        probes.append(core.Probe(i, L.probe_code(by_name[un], rep, op), "accept"))
-        pmeta[i] = (by_name[un], rep, op)
-    n_sub = sum(1 for x in plist if not x[0])
+    pt_units = ops_units if tier == "thorough" else [by_name[n] for n in QUICK_PT]
+    accepted = {c.name: {} for c in cfgs}   # cfg name -> unit name -> [(rep, Op)]
+    K = dict.fromkeys(["rejected", "notconst", "pt_rej_sub", "pt_notconst", "probes", "const_probes", "types",
+                       "type_mismatch", "pt_type_differs", "pt_unit_kind"], 0)
 
-    def probe_cfg(c):
-        wd = os.path.join(run.wd, "probes")
-        r1, _ = core.run_probes(c, probes[:n_sub], wd, "accS", PREAMBLE, batch=len(SUB) * len(ops_units))
-        r2, _ = core.run_probes(c, probes[n_sub:], wd, "accW", PREAMBLE, batch=64)
-        r1.update(r2)
-        return r1
+    def probe_phase(grp):
+        plist = []
+        for u in grp:
+            for rep in R11:
+                ops = L.sweep_ops(rep, tier) + [L.RT_OP, L.RTP_OP] + (L.pt_ops(rep) if u in pt_units else [])
+                plist += [(rep not in SUB, op.oid, rep, u.name, op) for op in ops]
+        plist.sort(key=lambda x: x[:4])
+        pmeta = {i: (by_name[un], rep, op) for i, (_, _, rep, un, op) in enumerate(plist)}
+        probes = [core.Probe(i, L.probe_code(u, rep, op, constant=True), "accept") for i, (u, rep, op) in sorted(pmeta.items())]
+        n_sub = sum(1 for x in plist if not x[0])
 
-    out = _multi(cfgs, probe_cfg)
-    accepted = {}   # cfg name -> unit name -> [(rep, opname)]
-    n_rejected = 0
-    for cfg in cfgs:
-        acc = accepted.setdefault(cfg.name, {u.name: [] for u in ops_units})
-        for i in sorted(pmeta):
-            u, rep, op = pmeta[i]
-            v, diag = out[cfg.name][i]
-            if v == "accept":
-                if op.S == "R":
-                    acc[u.name].append((rep, op.name))
-                continue
-            _guard(diag)
-            n_rejected += 1
-            key = "C13:no-compile:op=%s:rep=%s:unit=%s:cfg=%s" % (op.oid, rep, u.name, cfg.name)
-            report(key, "%s rejects `%s` for %s of rep %s (the raw operator on %s compiles): %s"
-                   % (cfg, op.au.format(**L._EVAL), u.maker, rep, rep, diag),
-                   {"kind": "probe", "cfg": [cfg.cxx, cfg.std], "unit": u.name, "rep": rep, "op": op.oid})
-    n_eval += len(probes) * len(cfgs)
-    mark("probes")
-    samples.append({"probe": probes[len(probes) // 2].code})
+        def probe_cfg(c):
+            wd = os.path.join(run.wd, "probes")
+            r1, _ = core.run_probes(c, probes[:n_sub], wd, "accS", L.PROBE_PREAMBLE, batch=len(SUB) * len(grp))
+            r2, _ = core.run_probes(c, probes[n_sub:], wd, "accW", L.PROBE_PREAMBLE, batch=64)
+            r1.update(r2)
+            again = [core.Probe(i, L.probe_code(*pmeta[i]), "accept") for i in sorted(r1) if r1[i][0] != "accept"]
+            r3, _ = core.run_probes(c, again, wd, "accP", L.PROBE_PREAMBLE, batch=16)
+            return r1, r3
+
+        out = _multi(cfgs, probe_cfg)
+        for cfg in cfgs:
+            acc = accepted[cfg.name]
+            for u in grp:
+                acc[u.name] = []
+            r_const, r_plain = out[cfg.name]
+            K["probes"] += len(r_const) + len(r_plain)
+            K["const_probes"] += len(r_const)
+            for i in sorted(pmeta):
+                u, rep, op = pmeta[i]
+                v, diag = r_const[i]
+                if v == "accept":
+                    acc[u.name].append((rep, op))
+                    continue
+                _guard(diag)
+                v2, diag2 = r_plain[i]
+                art = {"kind": "probe", "cfg": [cfg.cxx, cfg.std], "unit": u.name, "rep": rep, "op": op.oid}
+                use = op.au.format(**L._EVAL)
+                judged = op.cls not in ("pcmp", "pdiff", "parith", "pasg")    # the point operators: see assumptions
+                if v2 == "accept":
+                    acc[u.name].append((rep, op))
+                    if not judged:
+                        K["pt_notconst"] += 1
+                        continue
+                    K["notconst"] += 1
+                    key = "C13:constexpr:op=%s:rep=%s:unit=%s:cfg=%s" % (op.oid, rep, u.name, cfg.name)
+                    report(key, "%s: `%s` for %s of rep %s compiles, but is not usable in a constant expression or its "
+                           "compile-time value differs from the raw operator's (the raw operator on %s is a constant "
+                           "expression): %s" % (cfg, use, u.maker, rep, rep, diag), dict(art, mode="constant"))
+                    continue
+                _guard(diag2)
+                if not judged and rep in SUB:
+                    K["pt_rej_sub"] += 1
+                    continue
+                K["rejected"] += 1
+                key = "C13:no-compile:op=%s:rep=%s:unit=%s:cfg=%s" % (op.oid, rep, u.name, cfg.name)
+                report(key, "%s rejects `%s` (const operands) for %s of rep %s%s (the raw operator on %s compiles): %s"
+                       % (cfg, use, u.maker, rep, "" if op.S == "R" else " and a scalar of type %s" % op.S, rep, diag2),
+                       dict(art, mode="plain"))
+        if not any("probe" in x for x in samples):
+            samples.append({"probe": probes[len(probes) // 2].code})
+
+    # ---- 3. result types: ops units x R11 x operators x CFG6 (decltype only: independent of acceptance for the
+    #         Quantity operators; the point operators are named only where they were accepted)
+    def types_phase(grp):
+        tmeta = {}
+        for u in grp:
+            for rep in R11:
+                tmeta[len(tmeta)] = (u, rep)
+
+        def types_cfg(c):
+            pacc = {}
+            for u in grp:
+                for rep, op in accepted[c.name][u.name]:
+                    if op.point and op.cls != "rtp":
+                        pacc.setdefault((u.name, rep), []).append(op)
+            typ = [L.type_record(rid, u, rep, pacc.get((u.name, rep), ())) for rid, (u, rep) in sorted(tmeta.items())]
+            return psx.run_dump(c, typ, os.path.join(run.wd, "types"), "typ", L.DUMP_PREAMBLE, chunk=_chunk(len(typ))), pacc
+
+        out = _multi(cfgs, types_cfg)
+        for cfg in cfgs:
+            (res, failed), pacc = out[cfg.name]
+            for rid, diag in sorted(failed.items()):
+                _guard(diag)
+                u, rep = tmeta[rid]
+                key = "C13:no-compile:types:rep=%s:unit=%s:cfg=%s" % (rep, u.name, cfg.name)
+                report(key, "%s: naming the operator result types of Quantity<%s, %s> in decltype is rejected: %s"
+                       % (cfg, u.cpp, rep, diag), {"kind": "type", "cfg": [cfg.cxx, cfg.std], "unit": u.name, "rep": rep})
+            for rid, o in sorted(res.items()):
+                u, rep = tmeta[rid]
+                K["types"] += 1
+                if not o["def_in"]:
+                    key = "C13:layout:def_in:rep=%s:unit=%s:cfg=%s" % (rep, u.name, cfg.name)
+                    report(key, "%s: default-constructed Quantity/QuantityPoint<%s, %s> does not read back as %s{} through .in(unit)"
+                           % (cfg, u.cpp, rep, rep), {"kind": "type", "cfg": [cfg.cxx, cfg.std], "unit": u.name, "rep": rep, "op": "def_in"})
+                for op in L.ops_for(rep):
+                    K["types"] += 2
+                    j = judge_type(o, op.oid)
+                    if j:
+                        K["type_mismatch"] += 1
+                        key = "C13:%s:op=%s:rep=%s:unit=%s:cfg=%s" % (j[0], op.oid, rep, u.name, cfg.name)
+                        report(key, "%s: `%s` on Quantity<%s, %s>: %s" % (cfg, op.au.format(**L._EVAL), u.cpp, rep, j[1]),
+                               {"kind": "type", "cfg": [cfg.cxx, cfg.std], "unit": u.name, "rep": rep, "op": op.oid})
+                for op in pacc.get((u.name, rep), ()):      # recorded, not judged
+                    K["types"] += 1
+                    K["pt_type_differs"] += 0 if o[op.oid + "|ti"] else 1
+                    K["pt_unit_kind"] += 0 if (o[op.oid + "|un"] and o[op.oid + "|rf"]) else 1
 
     # ---- 4. value sweeps against the raw operators
-    if tier == "quick":
-        sweep_cfgs = [(core.GXX14, []), (core.CLANG20, ["-O2"])]
-    else:
-        sweep_cfgs = [(core.GXX14, []), (core.CLANG20, ["-O2"]), (core.GXX20, ["-O2"]), (core.CLANG14, [])]
+    main_cfgs = [(core.GXX14, []), (core.CLANG20, ["-O2"])]
+    extra_cfgs = [] if tier == "quick" else [(core.GXX20, ["-O2"]), (core.CLANG14, [])]
     nontrivial = set()
     n_sweep = n_skipped = 0
     per_rep = {}
-    done_cfgs = []
+    per_kind = {}
+    done_cfgs = {}      # configuration -> number of units swept
+    notjudged = [0]
 
-    def do_sweep(cfg, flags):
+    def do_sweep(cfg, flags, grp):
         nonlocal n_sweep, n_skipped
-        stats, viols = build_sweeps(os.path.join(run.wd, "sweep"), cfg, flags, ops_units, accepted[cfg.name], 3)
-        want = sum(len(accepted[cfg.name][u.name]) + len(R11) for u in ops_units)
-        base = [x for x in stats if "@" not in x["op"]]          # "op@S" = extra mixed-scalar-type sweeps
-        if len(base) != want and not TRAPPED:
-            raise core.InfraError("sweep under %s produced %d instance summaries, expected %d" % (cfg, len(base), want))
-        if len(stats) == len(base):
-            raise core.InfraError("no mixed-scalar-type sweeps were run under %s" % cfg)
+        stats, viols, want = build_sweeps(os.path.join(run.wd, "sweep"), cfg, flags, grp, accepted[cfg.name], 3)
+        if len(stats) != want and not TRAPPED:
+            raise core.InfraError("sweep under %s produced %d instance summaries, expected %d" % (cfg, len(stats), want))
+        for need, txt in (("@", "mixed-scalar-type"), ("pt_", "point operator"), ("roundtrip_pt", "point round-trip")):
+            if not any(need in x["op"] for x in stats) and not K["rejected"] and not TRAPPED and any(u in pt_units for u in grp):
+                raise core.InfraError("no %s sweeps were run under %s" % (txt, cfg))
         for s in stats:
             if s["evals"] == 0:
                 raise core.InfraError("vacuous sweep instance: %s" % s)
             n_sweep += s["evals"]
             n_skipped += s["skipped"]
+            notjudged[0] += s.get("notjudged", 0)
             per_rep[s["rep"]] = per_rep.get(s["rep"], 0) + s["evals"]
+            per_kind[s["k"]] = per_kind.get(s["k"], 0) + s["evals"]
             if s["varied"]:
                 nontrivial.add((s["unit"], s["rep"], s["op"]))
         cname = "%s%s" % (cfg.name, "".join(flags))
-        done_cfgs.append(cname)
+        done_cfgs[cname] = done_cfgs.get(cname, 0) + len(grp)
         for v in viols:
             u = by_name[v["unit"]]
             key = "C13:value:op=%s:rep=%s:unit=%s:a=%s:b=%s:cfg=%s" % (v["op"], v["rep"], v["unit"], v["a"], v["b"], cfg.name)
             what = ("%s %s: %s on %s(%s{%s})%s gives %s (%s) but the raw operator on %s gives %s (%s)" % (
-                cfg, " ".join(flags) or "-O0", v["op"], u.maker, v["rep"], v["ah"],
-                (" and %s{%s}" % (v["rep"], v["bh"])) if v["b"] else "", v["got"], v["got_t"], v["rep"], v["want"], v["want_t"]))
+                cfg, " ".join(flags) or "-O0", v["op"], u.ptmaker if v["op"] == "roundtrip_pt" else u.maker, v["rep"], v["ah"],
+                (" and {%s}" % v["bh"]) if v["b"] else "", v["got"], v["got_t"], v["rep"], v["want"], v["want_t"]))
             report(key, what, {"kind": "value", "cfg": [cfg.cxx, cfg.std], "flags": flags, "unit": v["unit"],
                                "rep": v["rep"], "op": v["op"], "a": v["a"], "b": v["b"]})
-        if not samples or "sweep" not in samples[-1]:
+        if not any("sweep" in x for x in samples):
             samples.append({"sweep": [s for s in stats if s["rep"] in ("int8_t", "float")][:4]})
 
-    # ---- 5. thorough: every one of the 2^32 float bit patterns through unit(x).in(unit)
-    f32 = {"float_patterns_roundtripped": 0, "float_2pow32_complete": False}
+    # ---- 5. thorough: every one of the 2^32 float bit patterns through unit(x).in(unit) (and the point round trip)
+    f32 = {"float_patterns_roundtripped": 0, "float_patterns_point_roundtripped": 0, "float_2pow32_complete": False}
 
     def do_f32():
         f_units = [by_name["meters"], by_name["gen.MPS"]]
         wd = os.path.join(run.wd, "f32")
         os.makedirs(wd, exist_ok=True)
         exes = []
-        for cfg, flags in ((core.GXX14, []), (core.CLANG20, ["-O2"])):
+        for cfg, flags in main_cfgs:
+            for u in f_units:       # both round trips of these units were probed and accepted?
+                ok = set(op.oid for rep, op in accepted[cfg.name][u.name] if rep == "float")
+                if not {"roundtrip", "roundtrip_pt"} <= ok:
+                    return          # already reported as a violation by the probes
             stem = os.path.join(wd, "f32_%s" % cfg.name)
             L.f32_tu(stem + ".cc", f_units)
             rc, err = core.build_exe(cfg, stem + ".cc", stem, flags)
@@ -320,26 +373,44 @@ def check(run):
                     complete = False
                     continue
                 for s in r[0]:
-                    f32["float_patterns_roundtripped"] += s["evals"]
+                    f32["float_patterns_roundtripped" if s["op"] == "roundtrip" else "float_patterns_point_roundtripped"] += s["evals"]
+                    notjudged[0] += s.get("notjudged", 0)
                 for v in r[1]:
-                    key = "C13:value:op=roundtrip:rep=float:unit=%s:a=%s:b=:cfg=%s" % (v["unit"], v["a"], cfg.name)
-                    report(key, "%s: %s(x).in(%s) for float bits %s returns bits %s" % (cfg, v["unit"], v["unit"], v["a"], v["got"]),
+                    key = "C13:value:op=%s:rep=float:unit=%s:a=%s:b=:cfg=%s" % (v["op"], v["unit"], v["a"], cfg.name)
+                    report(key, "%s: %s: %s(x).in(%s) for float bits %s returns bits %s" % (cfg, v["op"], v["unit"], v["unit"], v["a"], v["got"]),
                            {"kind": "value", "cfg": [cfg.cxx, cfg.std], "flags": flags, "unit": v["unit"], "rep": "float",
-                            "op": "roundtrip", "a": v["a"], "b": ""})
+                            "op": v["op"], "a": v["a"], "b": ""})
         f32["float_2pow32_complete"] = complete
         mark("f32")
 
-    # order: the two main sweep configurations, then (thorough) all 2^32 float patterns, then the extra sweep
-    # configurations while the deadline allows
-    for i, (cfg, flags) in enumerate(sweep_cfgs):
-        if i == 2:
-            mark("sweeps_main")
-            do_f32()
-        if i >= 2 and run.time_left() < 420:
+    # order: group 0 (the quick tier's units): probes, types, main sweep configurations; thorough: then all 2^32 float
+    # patterns, then the further unit groups and the extra sweep configurations while the deadline allows
+    explored = []
+    t_group0 = None
+    for gi, grp in enumerate(groups):
+        t0 = run.elapsed()
+        if gi > 0 and run.time_left() < t_group0 * len(grp) / len(groups[0]) * 1.3 + 120:
             break
-        do_sweep(cfg, flags)
-    n_eval += n_sweep + f32["float_patterns_roundtripped"]
-    mark("sweeps" if tier == "quick" else "sweeps_extra")
+        probe_phase(grp)
+        mark("probes")
+        types_phase(grp)
+        mark("types")
+        for cfg, flags in main_cfgs:
+            do_sweep(cfg, flags, grp)
+        mark("sweeps")
+        explored += grp
+        if gi == 0:
+            t_group0 = run.elapsed() - t0
+            if tier == "thorough":
+                do_f32()
+    for cfg, flags in extra_cfgs:
+        if run.time_left() < 420:
+            break
+        do_sweep(cfg, flags, explored)
+        mark("sweeps_extra")
+    n_eval += K["probes"] + K["types"] + n_sweep + f32["float_patterns_roundtripped"] + f32["float_patterns_point_roundtripped"]
+    n_cfg_full = sum(1 for n in done_cfgs.values() if n == len(ops_units))
+    complete = len(explored) == len(ops_units) and n_cfg_full == len(main_cfgs) + len(extra_cfgs)
 
     if len(nontrivial) < 2:
         raise core.InfraError("vacuity: fewer than 2 sweep instances saw more than one distinct result")
@@ -349,27 +420,48 @@ def check(run):
         "rule": ("Enumerated: (a) layout: every library unit and %d generated units x 11 reps x {Quantity, QuantityPoint} x 6 "
                  "compiler configurations, 16 facts each; (b) result types: ops-units x 11 reps x every operator "
                  "(same-unit + - %% unary+- += -=, six comparisons, scalar * / *= /= with scalar in {R, int32_t, double}) "
-                 "x 6 configurations, decltype vs the raw operator's decltype; (c) acceptance probe of each such "
-                 "operator use x 6 configurations (quick: scalar type R only); (d) compiled value sweeps per (unit, rep, operator): all 65536 operand "
-                 "pairs for 8-bit reps, edge-window pairs for 16/32/64-bit, structured floating pairs; unary ops and "
-                 "unit(x).in(unit) on all 8/16-bit values, +-512/+-4096 windows for 32/64-bit, every exponent x "
-                 "mantissa patterns x sign for floating reps; expected value = raw operator on R, cases where the raw "
+                 "x 6 configurations: decltype vs the raw operator's decltype, and the result is Quantity<U, raw type> of "
+                 "the operands' own unit U (Q& for compound assignment); (c) one acceptance probe per operator use x 6 "
+                 "configurations, first inside a constant expression (constexpr = const operands; static_assert of the "
+                 "compile-time value against the raw operator on 5, 3, scalar 2; compound assignment through a constexpr "
+                 "helper function), rejected ones again at run time on const operands: scalar types R + the "
+                 "mixed-scalar table %s (thorough: + int32_t, double for every rep), the round-trip spelling sets, the "
+                 "point operators; only accepted uses are instantiated by the sweeps; (d) compiled value sweeps per "
+                 "(unit, rep, operator): all 65536 operand pairs for 8-bit reps, edge-window pairs for 16/32/64-bit, "
+                 "structured floating pairs; mixed-scalar-type sweeps: the pair alphabet of R x a boundary alphabet of S "
+                 "with values that do not survive conversion to R; unary ops (on a const lvalue) and the round trip "
+                 "on all 8/16-bit values, +-512/+-4096 windows for 32/64-bit, every exponent x mantissa patterns x "
+                 "sign for floating reps; round-trip spellings: maker(x) as prvalue and const lvalue, "
+                 "make_quantity<U>(x), x * symbol (units with a library symbol) read by .in(maker), .in(U{}), "
+                 ".in<R>(maker), .data_in(maker), .in(symbol); expected value = raw operator on R, cases where the raw "
                  "operation is undefined (division by zero, MIN/-1, signed overflow in the promoted type) are skipped "
-                 "and counted. distinct_nontrivial = number of distinct (unit, rep, operator) sweep instances on which "
+                 "and counted; (e) QuantityPoint (units %s): ptmaker(x).in(ptmaker) over the round-trip alphabets of "
+                 "every ops unit, and six comparisons, p-p, p+d, d+p, p-d, p+=d, p-=d over the pair alphabets, value only. "
+                 "distinct_nontrivial = number of distinct (unit, rep, operator) sweep instances on which "
                  "the raw operator produced at least two different results (so agreement is not constant-vs-constant)."
-                 % sum(1 for u in units if not u.lib)),
+                 % (sum(1 for u in units if not u.lib), json.dumps(L.WIDER, sort_keys=True).replace('"', ""),
+                    [u.name for u in pt_units])),
         "samples": samples,
-        "exhaustive": len(done_cfgs) == len(sweep_cfgs) and (tier != "thorough" or f32["float_2pow32_complete"]),
+        "exhaustive": complete and (tier != "thorough" or f32["float_2pow32_complete"]),
         "exhaustive_note": ("complete over the stated finite alphabets (all 8-bit operand pairs, all 8/16-bit values, "
                             "all units x reps x configurations); 32/64-bit and double/long double values are covered on the "
                             "stated windows/structured alphabets only" +
                             ("; float round trip over all 2^32 patterns" if f32["float_2pow32_complete"] else "") +
-                            ("" if len(done_cfgs) == len(sweep_cfgs) else "; deadline guard stopped the value sweeps after %s" % done_cfgs)),
-        "units_layout": len(units), "units_ops": len(ops_units), "configs": [str(c) for c in cfgs],
-        "layout_facts_checked": n_layout, "result_types_checked": n_types, "result_type_mismatches": type_mismatch,
-        "acceptance_probes": len(probes) * len(cfgs), "acceptance_rejected": n_rejected,
-        "sweep_evaluations": n_sweep, "sweep_skipped_undefined_raw": n_skipped, "sweep_configs": done_cfgs,
-        "sweep_evaluations_per_rep": per_rep, "phase_wall_s": phase,
+                            ("" if complete else "; the deadline guard stopped after %d of %d ops units; units swept per "
+                             "configuration: %s" % (len(explored), len(ops_units), done_cfgs))),
+        "units_layout": len(units), "units_ops": len(explored), "units_ops_planned": len(ops_units), "configs": [str(c) for c in cfgs],
+        "layout_facts_checked": n_layout, "result_types_checked": K["types"], "result_type_mismatches": K["type_mismatch"],
+        "acceptance_probes": K["probes"], "acceptance_rejected": K["rejected"], "constant_expression_probes": K["const_probes"],
+        "constant_expression_rejected": K["notconst"],
+        "sweep_evaluations": n_sweep, "sweep_skipped_undefined_raw": n_skipped, "sweep_configs": sorted(done_cfgs), "sweep_units_per_config": done_cfgs,
+        "sweep_evaluations_per_rep": per_rep, "sweep_evaluations_per_kind": per_kind, "phase_wall_s": phase,
+        "units_point_ops": sum(1 for u in explored if u in pt_units),
+        # recorded, not judged (outside the statement as read; see assumptions)
+        "point_roundtrip_bitdiff_not_judged": notjudged[0],
+        "point_result_type_differs_from_raw": K["pt_type_differs"],
+        "point_result_unit_or_kind_unexpected": K["pt_unit_kind"],
+        "point_ops_rejected_subint_not_judged": K["pt_rej_sub"],
+        "point_ops_not_constant_expression_not_judged": K["pt_notconst"],
     })
     run.cov.update(f32)
     run.assumptions += [
@@ -379,6 +471,23 @@ def check(run):
         "instruction chosen by the compiler); every other floating result is compared bit-for-bit",
         "x87 long double: only valid encodings (integer bit = exponent != 0) are enumerated; padding bytes are ignored",
         "compound *= /= of an integral rep by a floating scalar is documented as unsupported and not probed",
+        "reading of 'unit(x).in(unit) returns x bit-for-bit': the clause is spelled with the unit's quantity maker "
+        "(mechanism: QuantityMaker::operator()); QuantityPoint is named only in the layout/default-construction clause. "
+        "ptmaker(x).in(ptmaker) is swept over the same alphabets anyway: QuantityPoint::in(u) adds the origin displacement "
+        "(Zero -> R{0} for the same unit), so on the unchanged tree -0.0 comes back as +0.0 and a signalling NaN comes back "
+        "as the same NaN quieted (witness audit/witness/R3-C13-obs1.cc); exactly these two input families with exactly "
+        "that output are counted in point_roundtrip_bitdiff_not_judged, any other bit difference (every integral value, "
+        "every other floating pattern) is a violation",
+        "reading of the operator sentence: its operator list (% unary+- * /) has no QuantityPoint subject, so it is about "
+        "Quantity. The same-unit point operators that exist (six comparisons, p-p, p+d, d+p, p-d, p+=d, p-=d; d = "
+        "Quantity of the same unit and rep) are judged on VALUE only (numerically: sign of zero ignored, NaN==NaN) on "
+        "operand pairs whose raw result is defined and is a value of R; they must compile for reps of rank >= int "
+        "(a rejection for a sub-int rep is counted, not judged); their result type/unit and their usability in constant "
+        "expressions are recorded in counters, not judged",
+        "constant-expression probes: the raw operators on R are constant expressions for constant operands; the wrapper "
+        "is required to be one too on all six configurations (operands 5, 3, scalar 2); data_in is not declared "
+        "constexpr by the library and is exercised at run time only",
+        "same-unit mixed-rep pairs (meters(int8) + meters(int32)) go through the common-type machinery and belong to C08",
     ]
 
 
@@ -396,12 +505,22 @@ def replay(path):
         hit = failed.get(0) or (judge_layout(res[0]) or None)
     elif r["kind"] == "type":
         res, failed = psx.run_dump(cfg, [L.type_record(0, u, rep)], wd, "rp", L.DUMP_PREAMBLE)
-        hit = failed.get(0) or (None if "op" not in r else ("def_in is false" if not res[0]["def_in"] else None)
-                                if r["op"] == "def_in" else judge_type(res[0], r["op"]))
+        if 0 in failed:
+            hit = failed[0]
+        elif r.get("op") == "def_in":
+            hit = None if res[0]["def_in"] else "def_in is false"
+        elif "op" in r:
+            j = judge_type(res[0], r["op"])
+            hit = j[1] if j else None
     elif r["kind"] == "probe":
-        op = [o for o in L.ops_for(rep) if o.oid == r["op"]][0]
-        res, _ = core.run_probes(cfg, [core.Probe(0, L.probe_code(u, rep, op), "accept")], wd, "rp", PREAMBLE)
-        hit = res[0][1] or "rejected" if res[0][0] == "reject" else None
+        op = L.find_op(rep, r["op"])
+        plain, _ = core.run_probes(cfg, [core.Probe(0, L.probe_code(u, rep, op), "accept")], wd, "rp", L.PROBE_PREAMBLE)
+        if r.get("mode", "plain") == "plain":
+            hit = (plain[0][1] or "rejected") if plain[0][0] == "reject" else None
+        elif plain[0][0] == "accept":
+            const, _ = core.run_probes(cfg, [core.Probe(0, L.probe_code(u, rep, op, constant=True), "accept")], wd, "rpc",
+                                       L.PROBE_PREAMBLE)
+            hit = (const[0][1] or "rejected in a constant expression") if const[0][0] == "reject" else None
     elif r["kind"] == "value":
         res, failed = psx.run_dump(cfg, [L.single_value_record(u, rep, r["op"], r["a"], r["b"])], wd, "rp",
                                    L.DUMP_PREAMBLE, flags=r.get("flags", []))
